@@ -19,7 +19,7 @@ ENGINE = "histsim"
 RULE = (
     "case = Chooser-generated history of 3-7 operations in ONE process over 2-3 generated workflow definitions and 3 "
     "value sets: construct(W(values), lazy subset of {x, xs}) via Workflow.construct, or run(W(values)) into a fresh "
-    "cache root (debug worker or simulated pool).  Reference for every operation = the same single operation executed "
+    "cache root (debug worker or simulated pool), or reuse: ONE task object kept per definition is given other input values (attribute assignment, attrs.evolve, copy + assignment) and is constructed (task.construct()) or run again.  Reference for every operation = the same single operation executed "
     "in a pristine process (a lockstep actor whose Workflow._constructed_cache is empty).  Oracle: graph description "
     "(node names, task types, per-node inputs with lazy fields named by origin, splitter/combiner, workflow inputs and "
     "outputs) and run outputs equal the reference's.  No fault space: the dimension searched is the history (process-"
@@ -31,7 +31,7 @@ COMPONENTS = {
     "stub": ["pristine process -> persistent actor with cleared construction cache", "process pool + event loop -> simloop (for 'cf' runs)"],
 }
 ASSUMPTIONS = ["history search against a model with no fault space (stated plainly in DESIGN.md)"]
-PROBES = ["exact_cache_hit", "superset_lazy_path", "run_after_construct", "run_twice", "cf_run"]
+PROBES = ["reuse_assign", "reuse_evolve", "reuse_copy", "exact_cache_hit", "superset_lazy_path", "run_after_construct", "run_twice", "cf_run"]
 N = {"quick": 300, "thorough": 6000}
 JOBS = 6
 VALUES = [(1, [1, 2]), (2, [3]), (3, [1, 2])]
@@ -103,6 +103,35 @@ def do_run_debug(spec, x, xs, cache):
         return "exc", f"{type(e).__name__}: {str(e)[:200]}"
 
 
+def derive(live, how, x, xs):
+    """a task object with the given values obtained from an existing (already constructed or
+    run) task object: attribute assignment, attrs.evolve, or copy + assignment"""
+    import copy
+
+    if how == "assign":
+        t = live
+        t.x = x
+        t.xs = xs
+    elif how == "evolve":
+        t = attrs.evolve(live, x=x, xs=xs)
+    else:
+        t = copy.copy(live)
+        t.x = x
+        t.xs = xs
+    return t
+
+
+def do_construct_obj(task):
+    try:
+        return "ok", graph_desc(task.construct())
+    except Exception as e:  # noqa: BLE001
+        return "exc", f"{type(e).__name__}: {str(e)[:200]}"
+
+
+def do_construct_fresh(spec, x, xs):
+    return do_construct_obj(workload.GenWf(spec=spec, x=x, xs=xs))
+
+
 def _reference(sim_holder, fn, args):
     """execute fn(*args) in a pristine actor process"""
     sim = lockstep.Sim(Chooser(seed=1), "/dev/shm/pv", trace_files={}, chunk_writes=False)
@@ -136,14 +165,43 @@ def run_case(case, ch, workdir):
     history = []
     hsh = hashlib.sha256()
     seen = {}
+    live = {}
     holder = [0]
     try:
         for op in range(ch.randint(3, 7, "nops")):
             d = ch.choose(ndefs, "def")
             x, xs = VALUES[ch.choose(len(VALUES), "vals")]
             spec = specs[d]
-            kind = ch.pick(["construct", "construct", "run"], "kind")
-            if kind == "construct":
+            kind = ch.pick(["construct", "construct", "run", "reuse"], "kind")
+            if kind == "reuse":
+                # the user keeps ONE task object per definition and gives it other input
+                # values between constructions / runs
+                how = ch.pick(["assign", "evolve", "copy"], "how")
+                what = ch.pick(["construct", "run"], "what")
+                if d not in live:
+                    live[d] = workload.GenWf(spec=spec, x=VALUES[0][0], xs=VALUES[0][1])
+                    try:
+                        live[d].construct()
+                    except Exception:  # noqa: BLE001 - a definition pydra rejects; the operations below compare that too
+                        pass
+                task = derive(live[d], how, x, xs)
+                if how != "copy":
+                    live[d] = task
+                kind = f"reuse-{what}"
+                label = f"{how}(def{d},x={x},xs={xs}).{what}"
+                probe("reuse_" + how)
+                if what == "construct":
+                    st, val = do_construct_obj(task)
+                    rst, rval = _reference(holder, do_construct_fresh, (spec, x, xs))
+                else:
+                    try:
+                        out = task(cache_root=os.path.join(workdir, f"cache{op}"), worker="debug")
+                        st, val = "ok", wc.plain(out.out)
+                    except Exception as e:  # noqa: BLE001
+                        st, val = "exc", f"{type(e).__name__}: {str(e)[:200]}"
+                    rst, rval = _reference(holder, do_run_debug, (spec, x, xs, os.path.join(workdir, f"refcache{op}")))
+                seen[(d, "u", op)] = True
+            elif kind == "construct":
                 lazy = ch.subset(["x", "xs"], "lazy")
                 st, val = do_construct(spec, x, xs, lazy)
                 rst, rval = _reference(holder, do_construct, (spec, x, xs, lazy))
@@ -179,7 +237,7 @@ def run_case(case, ch, workdir):
             if st != rst:
                 violation(res, "status-differs", sig, f"in-history: {st} {str(val)[:200]}; pristine process: {rst} {str(rval)[:200]}; {ctx}")
             elif st == "ok" and val != rval:
-                if kind == "construct":
+                if kind.endswith("construct"):
                     diff = _first_diff(val, rval)
                     violation(res, "graph-differs", sig, f"{diff}; {ctx}")
                 else:
